@@ -414,7 +414,14 @@ func modelRun(env *Env, w *world.World, opt model.Options, restarts map[uint32]b
 	mr.Exit = r.Exit
 	mr.Errs = sim.TakeErrors()
 	env.Stats.Blocks += r.Commits
-	if ok && !stop && cerr == nil && r.Node != nil {
+	if ok && stop && cerr == nil && len(atTip) > 0 && r.Node != nil {
+		// the model could not follow (a mismatch that may belong to another
+		// property, or an outcome the statement leaves open): the daemon still
+		// syncs to the tip for the oracles that do not need the model
+		ok = r.RunTo(target)
+		env.Stats.Blocks += r.Commits
+	}
+	if ok && cerr == nil && r.Node != nil {
 		for _, f := range atTip {
 			f(r, mr)
 		}
